@@ -118,8 +118,42 @@ _FAIL = re.compile(r'<<"FAIL", (\d+), (\d+), <<(.*?)>>>>')
 _DONE = re.compile(r'<<"DONE", (\d+)>>')
 
 
-def validate_traces(batch: dict, *, spec="Trace.tla", cfg="Trace.cfg", workers=16, timeout=900, keep=None):
-    """Run the batch trace validator.  Returns (fails, stats): fails = list of (tid, l, clause tuple)."""
+def validate_traces(batch: dict, *, spec="Trace.tla", cfg="Trace.cfg", workers=16, timeout=900, keep=None, chunk_bytes=24_000_000):
+    """Run the batch trace validator.  Returns (fails, stats): fails = list of (tid, l, clause tuple).
+    Large batches are validated in chunks of about `chunk_bytes` of trace JSON (the string and casefold tables are shared):
+    one JVM holding a 150 MB batch spends its time in the garbage collector."""
+    sizes = [len(json.dumps(t, separators=(",", ":"))) for t in batch["traces"]]
+    chunks, cur, acc = [], [], 0
+    for k, sz in enumerate(sizes):
+        if cur and acc + sz > chunk_bytes:
+            chunks.append(cur)
+            cur, acc = [], 0
+        cur.append(k)
+        acc += sz
+    if cur or not chunks:
+        chunks.append(cur)
+    if keep:
+        with open(keep, "w") as f:
+            json.dump(batch, f, separators=(",", ":"))
+    t_end = time.time() + timeout
+    fails, total = [], {"generated": 0, "distinct": 0, "depth": 0, "wall_s": 0.0, "bytes": 0, "traces": 0, "events": 0}
+    for idxs in chunks:
+        part = dict(batch, traces=[batch["traces"][k] for k in idxs])
+        left = t_end - time.time()
+        if left <= 5:
+            raise MachineryError(f"trace validation exceeded its budget of {timeout}s ({len(chunks)} chunks)")
+        f1, st = _validate_traces_1(part, spec, cfg, workers, left)
+        fails += [(idxs[tid - 1] + 1, l, clause) for tid, l, clause in f1]
+        for key in ("generated", "distinct", "bytes", "traces", "events"):
+            total[key] += st.get(key, 0)
+        total["wall_s"] = round(total["wall_s"] + st.get("wall_s", 0), 2)
+        total["depth"] = max(total["depth"], st.get("depth", 0))
+    if len(chunks) > 1:
+        total["chunks"] = len(chunks)
+    return fails, total
+
+
+def _validate_traces_1(batch, spec, cfg, workers, timeout):
     d = scratch("tr")
     path = os.path.join(d, "batch.json")
     with open(path, "w") as f:
@@ -128,8 +162,6 @@ def validate_traces(batch: dict, *, spec="Trace.tla", cfg="Trace.cfg", workers=1
     try:
         out, wall, rc = run_tlc(spec, cfg, workers=workers, timeout=timeout, env={"TRACE_FILE": path}, heap="12g")
     finally:
-        if keep:
-            shutil.copy(path, keep)
         shutil.rmtree(d, ignore_errors=True)
     err = tlc_error(out)
     if err or violated_invariant(out):
